@@ -130,4 +130,15 @@ def create (F : Facts) (items : Option (List Item)) (opts : List (String × OptV
       | none => none                       -- no `columns=` argument
       | some is => (convert is).map fun d => (d, o)
 
+/-- what a CREATE leaves behind, by the order of its steps: the arguments are decided (`dec`),
+    the storage is opened (`opens`), the table is registered, SQLite accepts the declaration
+    (`declOK`).  Result: (accepted, the name is registered afterwards).  Where the registration
+    sits relative to the open, and whether a refused declaration unregisters, are read from the
+    source. -/
+def createEff (F : Facts) (dec opens declOK : Bool) : Bool × Bool :=
+  if !dec then (false, !F.argsBeforeOpen)
+  else if !opens then (false, !F.registerAfterOpen)
+  else if !declOK then (false, !F.declareFailureUnregisters)
+  else (true, true)
+
 end S3db.Schema
